@@ -3,6 +3,7 @@ package rules
 import (
 	"fmt"
 	"go/ast"
+	"go/constant"
 	"go/token"
 	"go/types"
 	"sort"
@@ -726,10 +727,43 @@ func defaultCode(c *core.Ctx) {
 	c.Floor("default-code sites", sites, 4)
 	// CodeOf
 	if fd := fn(p, "CodeOf"); fd != nil {
-		rets := astx.Returns(fd.Body)
-		last := rets[len(rets)-1]
-		k, isC := astx.ConstInt(info, last.Results[0])
-		c.Check(isC && k == unknown, "CodeOf/default", last.Pos(), "CodeOf reports unknown for errors that carry no code")
+		// on every exit that did not find a *Error (the ok of asError is not known true), the returned value is
+		// the constant unknown - directly or through a local that holds it on that path
+		exits, bad := 0, 0
+		var okObj types.Object
+		ast.Inspect(fd.Body, func(n ast.Node) bool {
+			if as, isAs := n.(*ast.AssignStmt); isAs && len(as.Lhs) == 2 && len(as.Rhs) == 1 {
+				if call, isCall := astx.Unparen(as.Rhs[0]).(*ast.CallExpr); isCall {
+					if f := astx.CalleeFunc(info, call); f != nil && f.Name() == "asError" {
+						okObj = astx.ObjOf(info, as.Lhs[1])
+					}
+				}
+			}
+			return true
+		})
+		_, trunc := astx.ForEachExit(info, fd.Body, func(s *astx.State, kind astx.ExitKind, ret *ast.ReturnStmt) {
+			if ret == nil || len(ret.Results) != 1 {
+				bad++
+				return
+			}
+			if okObj != nil && s.TookBranch(func(e ast.Expr, pol bool) bool { return astx.ObjOf(info, e) == okObj && pol }) {
+				return
+			}
+			exits++
+			cst := s.ConstObjOnPath(info, ret.Results[0])
+			if cst == nil {
+				bad++
+				return
+			}
+			if k, exact := constant.Int64Val(constant.ToInt(cst.Val())); !exact || k != unknown {
+				bad++
+			}
+		})
+		if trunc {
+			c.Undecided("CodeOf/default", fd.Pos(), "path enumeration truncated")
+		} else {
+			c.Check(bad == 0 && exits > 0, "CodeOf/default", fd.Pos(), "CodeOf reports unknown for errors that carry no code (%d such exit(s), %d returning something else)", exits, bad)
+		}
 	}
 }
 
